@@ -30,7 +30,7 @@ class A:
 
     def __init__(self, ret=None, requires=None, ensures=None, decreases=None, spec_raw=None, loops=None, closures=None,
                  body_begin=None, body_end=None, arm_begin=None, arm_end=None, after=None, before=None, attrs=None,
-                 rewrites=None, props=(), external_body=False, note=None, params_mut=None, no_canary=False, arm_rewrites=None, stub=False, arm_replace=None, method_table=None, ret_type=None):
+                 rewrites=None, props=(), external_body=False, note=None, params_mut=None, no_canary=False, arm_rewrites=None, stub=False, arm_replace=None, method_table=None, ret_type=None, mcalls=None):
         self.ret = ret                      # name for the return value
         self.requires = requires or []      # list of (name, text)
         self.ensures = ensures or []        # list of (name, text)
@@ -51,6 +51,7 @@ class A:
         self.note = note
         self.no_canary = no_canary
         self.ret_type = ret_type              # the return type the contract was written for (signature-change detection)
+        self.mcalls = mcalls                  # method name -> trampoline, rewritten IN PLACE call by call (positional; composes with anchors); R2m
         self.method_table = method_table      # method name -> trampoline: the body is mechanically rewritten (vgen.mcall); R2m
         self.arm_replace = arm_replace or {}     # pattern -> (new body text, reason): the arm's body is NOT verified (dropped, replaced by a trampoline call)
         self.stub = stub                    # keep the signature verbatim, drop the body (external_body + unimplemented!()): callee known by contract only
@@ -734,6 +735,34 @@ def _emit_item(unit, g, src, it, iid, label, a, fnq, emit, canary, spec):
                     em.replace_toks(blo, bhi, new_body)
                     rw_applied.append(dict(item=label, old=None, new=new_body, count=1, positions=[(blo, bhi)],
                                            reason='R2m: std/chrono method calls mechanically rewritten into trampoline calls: ' + ', '.join(f'{m} x{c}' for m, c in counts)))
+        if a.mcalls and not a.external_body:
+            from . import mcall
+            blo, bhi = it.body_open + 1, src.br[it.body_open]
+            sites = []
+            dropped = []
+            for key in a.arm_replace:
+                pat, occ = (key, 0) if isinstance(key, str) else key
+                r = rscan.find_arm(src.toks, src.br, blo, bhi, pat, occ)
+                if r is not None:
+                    dropped.append((r[2], r[3]))
+            for i in range(blo, bhi - 2):
+                t = src.toks
+                if any(lo <= i < hi for lo, hi in dropped):
+                    continue
+                if t[i].kind == 'p' and t[i].text == '.' and t[i + 1].kind == 'id' and t[i + 1].text in a.mcalls and t[i + 2].text == '(':
+                    sites.append((mcall._recv_start(t, src.br, i), i, src.br[i + 2]))
+            # several calls of one chain share the receiver start: the outermost call's opening text must come first
+            for rs, dot, close in sorted(sites, key=lambda x: (x[0], -x[1])):
+                name = src.toks[dot + 1].text
+                tramp = a.mcalls[name]
+                ref = ''
+                if isinstance(tramp, tuple):
+                    tramp, ref = tramp[0], '&'
+                em.insert_before_tok(rs, f'{tramp}({ref}')
+                new_txt = ', ' if close > dot + 3 else ''
+                em.replace_toks(dot, dot + 3, new_txt)
+                rw_applied.append(dict(item=label, old=f'.{name}(', new=new_txt, count=1, positions=[(dot, dot + 3)],
+                                       reason=f'R2m: method call `.{name}(..)` -> trampoline call `{tramp}(recv, ..)` (assumed std behaviour)'))
         if a.arm_replace and not a.external_body:
             blo, bhi = it.body_open + 1, src.br[it.body_open]
             for key, (new, reason) in a.arm_replace.items():
